@@ -109,7 +109,21 @@ func checkC07(r *mon.Run) {
 				var o [16]byte
 				rng.Read(o[:])
 				owner := toLib(refguid.FromWire(o[:]))
-				switch rng.Intn(3) {
+				switch rng.Intn(5) {
+				case 3: // rejected appends must leave the database as it was
+					d := make([]byte, []int{0, 31, 33, 48}[rng.Intn(4)])
+					rng.Read(d)
+					if err := db.Append(signature.CERT_SHA256_GUID, owner, d); err == nil {
+						log = append(log, "append-sha256-wrong-size-ACCEPTED")
+					} else {
+						log = append(log, "append-sha256-wrong-size")
+					}
+				case 4:
+					if len(*db) > 0 && len((*db)[0].Signatures) > 0 {
+						e := (*db)[0].Signatures[0]
+						db.Append((*db)[0].SignatureType, e.Owner, e.Data)
+						log = append(log, "append-duplicate")
+					}
 				case 0:
 					d := make([]byte, 32)
 					rng.Read(d)
